@@ -748,8 +748,7 @@ func (fc *FuncCtx) evalUnary(n *ast.UnaryExpr, st *State) *Value {
 	case token.SUB:
 		v := fc.eval(n.X, st)
 		r := scalar(v.Sh, "(- "+v.T()+")")
-		fc.overflowCheck(st, n, r)
-		return r
+		return fc.overflowCheck(st, n, r)
 	case token.ADD:
 		return fc.eval(n.X, st)
 	case token.AND:
@@ -804,11 +803,23 @@ func (fc *FuncCtx) interiorPtr(n *ast.UnaryExpr, t *ast.SelectorExpr, sel *types
 	return p
 }
 
-func (fc *FuncCtx) overflowCheck(st *State, n ast.Node, v *Value) {
+// overflowCheck returns the value of a fixed-width arithmetic result.  Normally the result must be in range
+// (an obligation), after which the mathematical value is the Go value.  In a function whose contract says
+// `wraps`, overflow is allowed (Go wraps around silently, it does not panic): the result is an unknown value of
+// the type's range that equals the mathematical value whenever that is in range.
+func (fc *FuncCtx) overflowCheck(st *State, n ast.Node, v *Value) *Value {
 	if v.Sh.Kind == KInt && v.Sh.Bits > 0 {
 		lo, hi := intRange(v.Sh)
-		fc.safety(st, "overflow", n, and("(<= "+lo+" "+v.T()+")", "(<= "+v.T()+" "+hi+")"))
+		inRange := and("(<= "+lo+" "+v.T()+")", "(<= "+v.T()+" "+hi+")")
+		if fc.contract != nil && fc.contract.Wraps {
+			w := fc.e.fresh("wrap", "Int")
+			st.assume(and("(<= "+lo+" "+w+")", "(<= "+w+" "+hi+")"))
+			st.assume(imp(inRange, eq(w, v.T())))
+			return scalar(v.Sh, w)
+		}
+		fc.safety(st, "overflow", n, inRange)
 	}
+	return v
 }
 
 func (fc *FuncCtx) evalBinary(n *ast.BinaryExpr, st *State) *Value {
@@ -868,16 +879,13 @@ func (fc *FuncCtx) binaryOp(st *State, n ast.Node, op token.Token, l, r *Value, 
 			return scalar(resSh, app(f, l.T(), r.T()))
 		}
 		v := scalar(resSh, "(+ "+l.T()+" "+r.T()+")")
-		fc.overflowCheck(st, n, v)
-		return v
+		return fc.overflowCheck(st, n, v)
 	case token.SUB:
 		v := scalar(resSh, "(- "+l.T()+" "+r.T()+")")
-		fc.overflowCheck(st, n, v)
-		return v
+		return fc.overflowCheck(st, n, v)
 	case token.MUL:
 		v := scalar(resSh, "(* "+l.T()+" "+r.T()+")")
-		fc.overflowCheck(st, n, v)
-		return v
+		return fc.overflowCheck(st, n, v)
 	case token.QUO:
 		fc.safety(st, "divzero", n, not(eq(r.T(), "0")))
 		// Go truncates toward zero
